@@ -204,7 +204,8 @@ func Corpus() *Program {
 		DurationType:       SimDurationType,
 		ExcludeFields: []string{"Naming.Secret", "Naming.SecretList", "NamedLeaf.Hidden", "Naming.Other.Skip", "EmbP.EpHidden", "Nesting.PtrList.Attrs", "DeepNest.Out.ByKey.LeafMap",
 			"Oneofs.ChC", "WithOneof.VarI", "Interleave.CInline"}, // branches of oneof groups that keep other branches in the schema,
-		ComputedFields:              []string{"Scalars.FString", "Sink.Count", "Leaf.Num", "Sink.Spec.Name", "Oneofs.ChI", "Oneofs.pick_l", "Mid.ChoiceB", "Empties.PickE"},
+		ComputedFields:              []string{"Scalars.FString", "Sink.Count", "Leaf.Num", "Sink.Spec.Name", "Oneofs.ChI", "Oneofs.pick_l", "Mid.ChoiceB", "Empties.PickE",
+			"Interleave.BGroup", "Interleave.DHost", "EmbO.EwA", "EmbO.EwB", "Oneofs.pick_s"}, // incl. every branch of three oneof groups
 		RequiredFields:              []string{"Sink.Name", "Scalars.FInt32", "Oneofs.ChA", "WithOneof.VarS", "Mid.Name", "Nesting.PtrMap.Tags", "Interleave.BGroup", "EmbO.EvB"}, // also on oneof branches and element fields
 		SensitiveFields:             []string{"Sink.Data", "Leaf.Str", "Oneofs.ChJ", "WithOneof.VarM"},
 		NameOverrides:               map[string]string{"Naming.Overridden": "renamed", "Leaf.Flag": "flag_x"},
